@@ -44,9 +44,9 @@ func runC15(r *Report) {
 		args := c.Call().Common().Args
 		key := rc + "/sstables.SSTableStreamWriter.WriteNext/comparator-operands"
 		a0 := isFieldLoad("sstables.SSTableStreamWriter", "lastKey")(args[0])
-		a1 := paramOrigin(args[1]) != nil && paramOrigin(args[1]).Name() == "key"
+		a1 := paramOrigin(args[1]) != nil && refName(paramOrigin(args[1])) == "key"
 		b0 := isFieldLoad("sstables.SSTableStreamWriter", "lastKey")(args[1])
-		b1 := paramOrigin(args[0]) != nil && paramOrigin(args[0]).Name() == "key"
+		b1 := paramOrigin(args[0]) != nil && refName(paramOrigin(args[0])) == "key"
 		want := "RR---" // Compare(last, key): appends reachable for negative results only
 		if b0 && b1 {
 			want = "---RR"
